@@ -9,6 +9,7 @@ import (
 	"go/token"
 	"go/types"
 	"os"
+	"strconv"
 	"strings"
 
 	"golang.org/x/tools/go/ssa"
@@ -75,6 +76,9 @@ type Engine struct {
 	bounds   map[string]bool
 	optRecs  map[*Obj]*StructV
 	cfgFile  *cfgFileEnv
+	prune    bool
+	concrete []NondetVal
+	cpos     int
 }
 
 // Event is a recorded stub side effect (log line, Fail, hook call).
@@ -90,6 +94,29 @@ func (e *Engine) fresh(prefix string, k Kind, w int) *Term {
 }
 
 func (e *Engine) nondet(tag string, k Kind, w int) *Term {
+	if e.concrete != nil {
+		// concrete mode (translator validation / debugging): the draw is the vector's value
+		var nv NondetVal
+		if e.cpos < len(e.concrete) {
+			nv = e.concrete[e.cpos]
+		}
+		e.cpos++
+		if nv.V == "?" {
+			t := e.fresh("nd_"+tag, k, w)
+			e.nondets = append(e.nondets, Nondet{Name: t.Name, Tag: tag, T: t, Max: -1})
+			return t
+		}
+		e.nondets = append(e.nondets, Nondet{Name: fmt.Sprintf("c%d", e.cpos), Tag: tag, Max: -1})
+		switch k {
+		case KBool:
+			return BoolC(nv.V == "true")
+		case KStr:
+			return StrC(nv.V)
+		default:
+			n, _ := strconv.ParseUint(nv.V, 10, 64)
+			return BVC(w, n)
+		}
+	}
 	t := e.fresh("nd_"+tag, k, w)
 	e.nondets = append(e.nondets, Nondet{Name: t.Name, Tag: tag, T: t, Max: -1})
 	return t
@@ -330,11 +357,11 @@ func (e *Engine) exec(fr *Frame, b *ssa.BasicBlock, st *State, stop *ssa.BasicBl
 				}
 			}
 			// infeasible error paths are pruned before they are executed (DESIGN §4.2)
-			if pcA != FalseT && e.isErrorBlock(b.Succs[0]) && e.infeasible(st, pcA) {
+			if e.prune && pcA != FalseT && e.isErrorBlock(b.Succs[0]) && e.infeasible(st, pcA) {
 				pcA = FalseT
 				e.npruned++
 			}
-			if pcB != FalseT && e.isErrorBlock(b.Succs[1]) && e.infeasible(st, pcB) {
+			if e.prune && pcB != FalseT && e.isErrorBlock(b.Succs[1]) && e.infeasible(st, pcB) {
 				pcB = FalseT
 				e.npruned++
 			}
@@ -823,7 +850,8 @@ func (e *Engine) makeSlice(st *State, t types.Type, ln *Term) Value {
 func (e *Engine) probeMax(st *State, ln *Term) int64 {
 	for k := int64(0); k <= 8; k++ {
 		if e.infeasible(st, And(st.pc, BVBin(">", ln, BVC(64, uint64(k)), true))) {
-			ln.Max = k
+			// the bound holds under the current path condition only: it is used for this
+			// allocation and never attached to the (shared) term
 			return k
 		}
 	}
